@@ -1,7 +1,579 @@
-//! C17: not implemented yet.
-use crate::util::Args;
+//! C17: cone of influence (patronus::system::analysis::cone_of_influence{,_init,_comb}).
+//! One case per generated system; every expression of the system and every sub-expression
+//! (plus a few roots that are not part of the system) is used as root, for all three variants.
+//!
+//! (case ID (kind K) (sys ...)
+//!          (roots (r E (full S..) (init S..) (comb S..)) ...)      S = reported symbol, in report order, or (panic)
+//!          (trials (t (base V V ..) (alt V V ..)) ...)             V = (v (bvenv ..) (arrenv ..)), total over all symbols
+//!          (panicloc ".."))
+//! The valuations are used by the driver's property oracle (perturbation outside the reported
+//! cone in the reference semantics); they are generated here so that every case replays exactly.
+use crate::dump::*;
+use crate::exprgen::*;
+use crate::rng::Rng;
+use crate::sexp::{Sexp, build_expr, read_cases};
+use crate::sysgen::*;
+use crate::util::*;
+use baa::{BitVecOps, BitVecValue};
+use patronus::expr::*;
+use patronus::system::analysis::{cone_of_influence, cone_of_influence_comb, cone_of_influence_init};
+use patronus::system::*;
+use std::collections::HashSet;
+use std::io::Write;
 
-pub fn run(_args: &Args) {
-    eprintln!("C17: harness module not implemented yet");
-    std::process::exit(2);
+const STEPS: usize = 3;
+
+struct Case {
+    ctx: Context,
+    sys: TransitionSystem,
+    kind: String,
+    /// roots that are not (sub-)expressions of the system
+    extra_roots: Vec<ExprRef>,
+    /// pre-recorded trials (replay); generated when empty
+    trials: Option<String>,
+}
+
+pub fn run(args: &Args) {
+    let mut rng = Rng::new(args.seed);
+    let mut out = std::io::BufWriter::new(std::fs::File::create(&args.out).expect("out file"));
+    let mut stats = Stats::default();
+    let mut distinct: HashSet<String> = HashSet::new();
+    let n_trials = args.get_u64("trials", 3);
+    if let Some(path) = args.get("cases-in") {
+        for c in read_cases(path).iter() {
+            let id = c.list()[1].atom().to_string();
+            let case = parse_case(c);
+            let line = run_case(&id, case, &mut rng.fork(), &mut stats, n_trials, &mut distinct);
+            stats.sample(&line, 2);
+            writeln!(out, "{line}").unwrap();
+        }
+    }
+    for id in 0..args.count {
+        let mut r = rng.fork();
+        let case = gen_case(&mut r, &mut stats, args);
+        let line = run_case(&format!("{id}"), case, &mut r, &mut stats, n_trials, &mut distinct);
+        stats.sample(&line, 2);
+        writeln!(out, "{line}").unwrap();
+    }
+    // distinct = distinct (system, root) pairs with a non-empty full cone; each is evaluated for the three variants
+    stats.add("distinct_cases", distinct.len() as u64);
+    stats.write(&args.out);
+}
+
+// ------------------------------------------------------------------------------------ generators
+
+/// sparse systems: many states, shallow next/init functions, so that cones are proper subsets and
+/// dependency chains through next/init links are long
+fn gen_sparse(ctx: &mut Context, rng: &mut Rng) -> TransitionSystem {
+    let mut sys = TransitionSystem::new("sparse".to_string());
+    let widths: [WidthInt; 3] = [1, 2, 3];
+    let n_states = rng.range(2, 8) as usize;
+    let n_inputs = rng.range(0, 4) as usize;
+    // few distinct widths so that symbols can be combined
+    let w0 = *rng.pick(&widths);
+    let w1 = *rng.pick(&widths);
+    let pickw = |rng: &mut Rng| if rng.chance(2, 3) { w0 } else { w1 };
+    let mut states: Vec<ExprRef> = vec![];
+    for k in 0..n_states {
+        let w = pickw(rng);
+        states.push(ctx.bv_symbol(&format!("s{k}"), w));
+    }
+    let mut has_mem = false;
+    if rng.chance(1, 4) {
+        let pos = rng.below(states.len() as u64 + 1) as usize;
+        states.insert(pos, ctx.array_symbol("mem", rng.range(1, 2) as WidthInt, w0));
+        has_mem = true;
+    }
+    let mut inputs: Vec<ExprRef> = vec![];
+    for k in 0..n_inputs {
+        let w = pickw(rng);
+        inputs.push(ctx.bv_symbol(&format!("i{k}"), w));
+    }
+    for i in inputs.iter() {
+        sys.add_input(ctx, *i);
+    }
+    let all: Vec<ExprRef> = states.iter().chain(inputs.iter()).copied().collect();
+    // a shallow expression of the type of `like` over symbols of `pool`
+    fn shallow(ctx: &mut Context, rng: &mut Rng, pool: &[ExprRef], like: ExprRef) -> ExprRef {
+        let tpe = like.get_type(ctx);
+        let same: Vec<ExprRef> = pool.iter().copied().filter(|s| s.get_type(ctx) == tpe).collect();
+        match tpe {
+            Type::BV(w) => {
+                let leaf = |ctx: &mut Context, rng: &mut Rng| -> ExprRef {
+                    if same.is_empty() || rng.chance(1, 5) {
+                        let v = lit_value(rng, w);
+                        ctx.bv_lit(&v)
+                    } else {
+                        *rng.pick(&same)
+                    }
+                };
+                let arrs: Vec<ExprRef> = pool.iter().copied().filter(|s| matches!(s.get_type(ctx), Type::Array(a) if a.data_width == w)).collect();
+                match rng.below(11) {
+                    0 | 1 => leaf(ctx, rng),
+                    2 => {
+                        let a = leaf(ctx, rng);
+                        ctx.not(a)
+                    }
+                    3 => {
+                        let a = leaf(ctx, rng);
+                        let b = leaf(ctx, rng);
+                        ctx.add(a, b)
+                    }
+                    4 => {
+                        let a = leaf(ctx, rng);
+                        let b = leaf(ctx, rng);
+                        ctx.xor(a, b)
+                    }
+                    5 => {
+                        let a = leaf(ctx, rng);
+                        let b = leaf(ctx, rng);
+                        ctx.and(a, b)
+                    }
+                    6 => {
+                        // ite with a condition over any 1-bit symbol or a comparison
+                        let bits: Vec<ExprRef> = pool.iter().copied().filter(|s| s.get_type(ctx) == Type::BV(1)).collect();
+                        let c = if !bits.is_empty() && rng.chance(1, 2) {
+                            *rng.pick(&bits)
+                        } else {
+                            let a = leaf(ctx, rng);
+                            let b = leaf(ctx, rng);
+                            ctx.equal(a, b)
+                        };
+                        let t = leaf(ctx, rng);
+                        let f = leaf(ctx, rng);
+                        ctx.ite(c, t, f)
+                    }
+                    7 if !arrs.is_empty() => {
+                        let m = *rng.pick(&arrs);
+                        let iw = m.get_array_type(ctx).unwrap().index_width;
+                        let idxs: Vec<ExprRef> = pool.iter().copied().filter(|s| s.get_type(ctx) == Type::BV(iw)).collect();
+                        let i = if idxs.is_empty() || rng.chance(1, 3) {
+                            let v = lit_value(rng, iw);
+                            ctx.bv_lit(&v)
+                        } else {
+                            *rng.pick(&idxs)
+                        };
+                        ctx.array_read(m, i)
+                    }
+                    8 => {
+                        let a = leaf(ctx, rng);
+                        let b = leaf(ctx, rng);
+                        match rng.below(5) {
+                            0 => ctx.div(a, b),
+                            1 => ctx.signed_div(a, b),
+                            2 => ctx.remainder(a, b),
+                            3 => ctx.signed_remainder(a, b),
+                            _ => ctx.signed_mod(a, b),
+                        }
+                    }
+                    9 if w == 1 => {
+                        // comparison of two arrays (ArrayEqual) when an array symbol is around
+                        let all_arrs: Vec<ExprRef> = pool.iter().copied().filter(|s| matches!(s.get_type(ctx), Type::Array(_))).collect();
+                        if all_arrs.is_empty() {
+                            leaf(ctx, rng)
+                        } else {
+                            let m = *rng.pick(&all_arrs);
+                            let t = m.get_array_type(ctx).unwrap();
+                            let d = {
+                                let v = lit_value(rng, t.data_width);
+                                ctx.bv_lit(&v)
+                            };
+                            let other = if rng.chance(1, 2) {
+                                ctx.array_const(d, t.index_width)
+                            } else {
+                                let iv = lit_value(rng, t.index_width);
+                                let i = ctx.bv_lit(&iv);
+                                ctx.array_store(m, i, d)
+                            };
+                            ctx.equal(m, other)
+                        }
+                    }
+                    _ => {
+                        let a = leaf(ctx, rng);
+                        let b = leaf(ctx, rng);
+                        ctx.sub(a, b)
+                    }
+                }
+            }
+            Type::Array(a) => {
+                let base = if same.is_empty() || rng.chance(1, 4) {
+                    let v = lit_value(rng, a.data_width);
+                    let d = ctx.bv_lit(&v);
+                    ctx.array_const(d, a.index_width)
+                } else {
+                    *rng.pick(&same)
+                };
+                if rng.chance(1, 2) {
+                    return base;
+                }
+                let idxs: Vec<ExprRef> = pool.iter().copied().filter(|s| s.get_type(ctx) == Type::BV(a.index_width)).collect();
+                let dats: Vec<ExprRef> = pool.iter().copied().filter(|s| s.get_type(ctx) == Type::BV(a.data_width)).collect();
+                let i = if idxs.is_empty() || rng.chance(1, 3) {
+                    let v = lit_value(rng, a.index_width);
+                    ctx.bv_lit(&v)
+                } else {
+                    *rng.pick(&idxs)
+                };
+                let d = if dats.is_empty() || rng.chance(1, 3) {
+                    let v = lit_value(rng, a.data_width);
+                    ctx.bv_lit(&v)
+                } else {
+                    *rng.pick(&dats)
+                };
+                ctx.array_store(base, i, d)
+            }
+        }
+    }
+    for (k, s) in states.iter().enumerate() {
+        let init = match rng.below(5) {
+            0 | 1 => None,
+            2 => Some(shallow(ctx, rng, &[], *s)),
+            3 => Some(shallow(ctx, rng, &inputs, *s)),
+            _ => {
+                // may read any state (earlier, later, itself): the sequential initialisation of
+                // Spec/System.v gives all of these a meaning
+                let pool: Vec<ExprRef> = if rng.chance(1, 2) { states[..k].iter().chain(inputs.iter()).copied().collect() } else { all.clone() };
+                Some(shallow(ctx, rng, &pool, *s))
+            }
+        };
+        let next = match rng.below(8) {
+            0 => None,
+            1 => Some(*s),
+            _ => Some(shallow(ctx, rng, &all, *s)),
+        };
+        sys.add_state(ctx, State { symbol: *s, init, next });
+    }
+    for k in 0..rng.range(0, 2) {
+        let like = *rng.pick(&all);
+        if matches!(like.get_type(ctx), Type::Array(_)) {
+            continue;
+        }
+        let e = shallow(ctx, rng, &all, like);
+        sys.add_output(ctx, format!("o{k}").into(), e);
+    }
+    for _ in 0..rng.range(0, 2) {
+        let a = *rng.pick(&all);
+        if matches!(a.get_type(ctx), Type::Array(_)) {
+            continue;
+        }
+        let b = shallow(ctx, rng, &all, a);
+        let e = ctx.equal(a, b);
+        sys.bad_states.push(e);
+    }
+    if rng.chance(1, 3) {
+        let a = *rng.pick(&all);
+        if !matches!(a.get_type(ctx), Type::Array(_)) {
+            let b = shallow(ctx, rng, &all, a);
+            let e = ctx.greater_or_equal(a, b);
+            sys.constraints.push(e);
+        }
+    }
+    let _ = has_mem;
+    sys
+}
+
+fn gen_case(rng: &mut Rng, stats: &mut Stats, args: &Args) -> Case {
+    let mut ctx = Context::default();
+    let mut kind;
+    let mut sys = if rng.chance(1, 2) {
+        kind = "sparse".to_string();
+        gen_sparse(&mut ctx, rng)
+    } else {
+        kind = "gen".to_string();
+        let mut cfg = SysCfg::default();
+        cfg.max_bv_states = rng.range(1, 6);
+        cfg.max_inputs = rng.range(0, 4);
+        cfg.max_depth = rng.range(1, 3) as u32;
+        cfg.max_outputs = 2;
+        // the division family is not implemented by patronus' evaluator but has a meaning in Spec/Eval.v,
+        // and the cone analysis must traverse it like every other operator
+        cfg.div_rem = rng.chance(1, 3);
+        if rng.chance(1, 5) {
+            // wider values: the cone is syntactic, but the perturbation oracle evaluates the semantics
+            cfg.widths = vec![1, 4, 8, 16, 33, 65];
+            kind.push_str("+wide");
+        }
+        gen_sys(&mut ctx, rng, &cfg)
+    };
+    let mut extra_roots: Vec<ExprRef> = vec![];
+    // ---- twists
+    // a symbol that is neither input nor state, used inside the system and as a root
+    if rng.chance(1, 4) {
+        let w = rng.range(1, 3) as WidthInt;
+        let z = ctx.bv_symbol("z", w);
+        let cands: Vec<ExprRef> = sys.inputs.iter().copied().chain(sys.states.iter().map(|s| s.symbol)).filter(|s| s.get_type(&ctx) == Type::BV(w)).collect();
+        let e = if cands.is_empty() { ctx.not(z) } else { let c = *rng.pick(&cands); ctx.xor(c, z) };
+        sys.add_output(&mut ctx, "oz".into(), e);
+        // also inside a next-state function
+        if rng.chance(1, 2) {
+            let idx: Vec<usize> = (0..sys.states.len()).filter(|k| sys.states[*k].symbol.get_type(&ctx) == Type::BV(w)).collect();
+            if !idx.is_empty() {
+                let k = *rng.pick(&idx);
+                let old = sys.states[k].next.unwrap_or(sys.states[k].symbol);
+                sys.states[k].next = Some(ctx.add(old, z));
+            }
+        }
+        extra_roots.push(z);
+        kind.push_str("+nonsys");
+    }
+    // a symbol with the name of a state but another width (a different symbol)
+    if rng.chance(1, 8) && !sys.states.is_empty() {
+        let k = rng.below(sys.states.len() as u64) as usize;
+        if let Type::BV(w) = sys.states[k].symbol.get_type(&ctx) {
+            let name = ctx.get_symbol_name(sys.states[k].symbol).unwrap().to_string();
+            if rng.chance(1, 2) {
+                let twin = ctx.bv_symbol(&name, w + 1);
+                let e = ctx.slice(twin, w - 1, 0);
+                sys.add_output(&mut ctx, "otwin".into(), e);
+                extra_roots.push(twin);
+            } else {
+                // an array symbol with the name of a bit-vector state
+                let twin = ctx.array_symbol(&name, 1, w);
+                let i = ctx.bv_lit(&BitVecValue::from_u64(1, 1));
+                let e = ctx.array_read(twin, i);
+                sys.add_output(&mut ctx, "otwin".into(), e);
+                extra_roots.push(twin);
+            }
+            kind.push_str("+twin");
+        }
+    }
+    // a symbol that is both an input and a state
+    if rng.chance(1, 10) && !sys.states.is_empty() {
+        let k = rng.below(sys.states.len() as u64) as usize;
+        let s = sys.states[k].symbol;
+        sys.add_input(&ctx, s);
+        kind.push_str("+inputstate");
+    }
+    // ill-formed: two states with the same symbol (outside the property's domain; model vs
+    // implementation only)
+    if rng.chance(1, 12) && !sys.states.is_empty() {
+        let k = rng.below(sys.states.len() as u64) as usize;
+        let mut st = sys.states[k];
+        match rng.below(3) {
+            0 => st.init = None,
+            1 => st.next = None,
+            _ => {
+                let o = sys.states[rng.below(sys.states.len() as u64) as usize];
+                if o.symbol.get_type(&ctx) == st.symbol.get_type(&ctx) {
+                    st.next = o.next;
+                    st.init = o.init;
+                }
+            }
+        }
+        if rng.chance(1, 2) {
+            sys.states.push(st);
+        } else {
+            sys.states.insert(0, st);
+        }
+        kind.push_str("+dupstate");
+    }
+    // roots outside the system: a literal, a fresh combination of system symbols
+    {
+        let v = lit_value(rng, 2);
+        extra_roots.push(ctx.bv_lit(&v));
+        let syms: Vec<ExprRef> = sys.inputs.iter().copied().chain(sys.states.iter().map(|s| s.symbol)).collect();
+        if syms.len() >= 2 {
+            let a = *rng.pick(&syms);
+            let same: Vec<ExprRef> = syms.iter().copied().filter(|s| s.get_type(&ctx) == a.get_type(&ctx)).collect();
+            let b = *rng.pick(&same);
+            let e = match a.get_type(&ctx) {
+                Type::BV(_) => ctx.add(a, b),
+                Type::Array(_) => ctx.equal(a, b),
+            };
+            extra_roots.push(e);
+        }
+    }
+    let _ = args;
+    {
+        let mut parts = kind.split('+');
+        stats.bump("generator", parts.next().unwrap_or("?"));
+        let mut any = false;
+        for t in parts {
+            stats.bump("twist", t);
+            any = true;
+        }
+        if !any {
+            stats.bump("twist", "(none)");
+        }
+    }
+    Case { ctx, sys, kind, extra_roots, trials: None }
+}
+
+fn parse_case(c: &Sexp) -> Case {
+    let mut ctx = Context::default();
+    let sysx = c.list().iter().find(|x| matches!(x, Sexp::List(l) if !l.is_empty() && matches!(&l[0], Sexp::Atom(a) if a == "sys"))).expect("sys");
+    let sys = build_sys(&mut ctx, sysx);
+    let mut sys_nodes: HashSet<ExprRef> = HashSet::new();
+    for r in all_roots(&ctx, &sys, &[]) {
+        sys_nodes.insert(r);
+    }
+    let mut extra_roots = vec![];
+    for r in c.field("roots").unwrap_or(&[]) {
+        let e = build_expr(&mut ctx, &r.list()[1]);
+        if !sys_nodes.contains(&e) {
+            extra_roots.push(e);
+        }
+    }
+    let kind = c.field("kind").map(|k| k[0].atom().to_string()).unwrap_or_else(|| "replay".into());
+    let trials = c.field("trials").map(|t| t.iter().map(sexp_to_string).collect::<Vec<_>>().join(" "));
+    Case { ctx, sys, kind, extra_roots, trials }
+}
+
+fn sexp_to_string(x: &Sexp) -> String {
+    match x {
+        Sexp::Atom(a) => a.clone(),
+        Sexp::Str(s) => quote(s),
+        Sexp::List(l) => format!("({})", l.iter().map(sexp_to_string).collect::<Vec<_>>().join(" ")),
+    }
+}
+
+/// all expressions of the system and all their sub-expressions (distinct), then the extra roots
+fn all_roots(ctx: &Context, sys: &TransitionSystem, extra: &[ExprRef]) -> Vec<ExprRef> {
+    let mut seen: HashSet<ExprRef> = HashSet::new();
+    let mut out = vec![];
+    for top in sys.get_all_exprs().into_iter().chain(extra.iter().copied()) {
+        for n in collect_nodes(ctx, top) {
+            if seen.insert(n) {
+                out.push(n);
+            }
+        }
+    }
+    out
+}
+
+fn dump_cone(ctx: &Context, r: &Result<Vec<ExprRef>, String>) -> String {
+    match r {
+        Err(_) => " (panic)".to_string(),
+        Ok(v) => v.iter().map(|s| format!(" {}", dump_expr(ctx, *s))).collect(),
+    }
+}
+
+fn random_valuation(ctx: &Context, rng: &mut Rng, syms: &[ExprRef]) -> String {
+    let mut bv = String::new();
+    let mut arr = String::new();
+    for s in syms {
+        let name = ctx.get_symbol_name(*s).unwrap().to_string();
+        match s.get_type(ctx) {
+            Type::BV(w) => {
+                let v = lit_value(rng, w);
+                bv.push_str(&format!(" ({} {} {})", quote(&name), w, bv_tok(&v)));
+            }
+            Type::Array(a) => {
+                let d = lit_value(rng, a.data_width);
+                arr.push_str(&format!(" ({} {} {} {}", quote(&name), a.index_width, a.data_width, bv_tok(&d)));
+                if a.index_width <= 4 {
+                    for i in 0..(1u64 << a.index_width) {
+                        if rng.chance(2, 3) {
+                            let v = lit_value(rng, a.data_width);
+                            arr.push_str(&format!(" ({} {})", bv_tok(&BitVecValue::from_u64(i, a.index_width)), bv_tok(&v)));
+                        }
+                    }
+                }
+                arr.push(')');
+            }
+        }
+    }
+    format!("(v (bvenv{bv}) (arrenv{arr}))")
+}
+
+fn run_case(id: &str, case: Case, rng: &mut Rng, stats: &mut Stats, n_trials: u64, distinct: &mut HashSet<String>) -> String {
+    let Case { ctx, sys, kind, extra_roots, trials } = case;
+    let roots = all_roots(&ctx, &sys, &extra_roots);
+    let sys_txt = dump_sys(&ctx, &sys);
+    let sys_hash = {
+        use std::hash::{Hash, Hasher};
+        let mut h = std::collections::hash_map::DefaultHasher::new();
+        sys_txt.hash(&mut h);
+        h.finish()
+    };
+    stats.bump("n_states", &format!("{}", sys.states.len()));
+    stats.bump("n_inputs", &format!("{}", sys.inputs.len()));
+    stats.bump("roots_per_system", &format!("{}", (roots.len() / 10) * 10));
+    for st in sys.states.iter() {
+        let k = match (st.init.is_some(), st.next) {
+            (_, Some(n)) if n == st.symbol => "const(next=self)",
+            (true, Some(_)) => "init+next",
+            (false, Some(_)) => "next only",
+            (true, None) => "init only",
+            (false, None) => "neither",
+        };
+        stats.bump("state_shape", k);
+        if matches!(st.symbol.get_type(&ctx), Type::Array(_)) {
+            stats.inc("array_states");
+        }
+    }
+    let state_syms: HashSet<ExprRef> = sys.states.iter().map(|s| s.symbol).collect();
+    let input_syms: HashSet<ExprRef> = sys.inputs.iter().copied().collect();
+    let n_sys_syms = state_syms.union(&input_syms).count();
+    let mut roots_txt = String::new();
+    let mut panic_loc = String::new();
+    for r in roots.iter() {
+        let full = guarded(|| cone_of_influence(&ctx, &sys, *r));
+        let init = guarded(|| cone_of_influence_init(&ctx, &sys, *r));
+        let comb = guarded(|| cone_of_influence_comb(&ctx, &sys, *r));
+        if full.is_err() || init.is_err() || comb.is_err() {
+            stats.inc("impl_panics");
+            panic_loc = last_panic_loc();
+        }
+        let rk = if ctx[*r].is_symbol() {
+            if state_syms.contains(r) {
+                "state symbol"
+            } else if input_syms.contains(r) {
+                "input symbol"
+            } else {
+                "other symbol"
+            }
+        } else if matches!(ctx[*r], Expr::BVLiteral(_)) {
+            "literal"
+        } else {
+            "operator"
+        };
+        stats.bump("root_kind", rk);
+        {
+            let d = dump_expr(&ctx, *r);
+            let op = d[1..].split(' ').next().unwrap_or("?").to_string();
+            stats.bump("root_op", &op);
+        }
+        if let (Ok(f), Ok(i), Ok(c)) = (&full, &init, &comb) {
+            stats.bump("cone_size_full", &format!("{}", f.len()));
+            stats.bump("cone_size_init", &format!("{}", i.len()));
+            stats.bump("cone_size_comb", &format!("{}", c.len()));
+            if f.len() != i.len() {
+                stats.inc("roots_where_full_differs_from_init");
+            }
+            if i.len() != c.len() {
+                stats.inc("roots_where_init_differs_from_comb");
+            }
+            if f.len() < n_sys_syms {
+                stats.inc("roots_with_proper_full_cone");
+            }
+        }
+        stats.add("root_variant_evaluations", 3);
+        let rt = dump_expr(&ctx, *r);
+        if matches!(&full, Ok(f) if !f.is_empty()) {
+            distinct.insert(format!("{sys_hash:x}|{rt}"));
+        }
+        roots_txt.push_str(&format!(" (r {rt} (full{}) (init{}) (comb{}))", dump_cone(&ctx, &full), dump_cone(&ctx, &init), dump_cone(&ctx, &comb)));
+    }
+    // valuations for the perturbation oracle: total over every symbol in sight
+    let trials_txt = match trials {
+        Some(t) => t,
+        None => {
+            let mut syms: Vec<ExprRef> = vec![];
+            let mut seen: HashSet<ExprRef> = HashSet::new();
+            for r in roots.iter() {
+                if ctx[*r].is_symbol() && seen.insert(*r) {
+                    syms.push(*r);
+                }
+            }
+            let mut t = String::new();
+            for _ in 0..n_trials {
+                let base: Vec<String> = (0..=STEPS).map(|_| random_valuation(&ctx, rng, &syms)).collect();
+                let alt: Vec<String> = (0..=STEPS).map(|_| random_valuation(&ctx, rng, &syms)).collect();
+                t.push_str(&format!(" (t (base {}) (alt {}))", base.join(" "), alt.join(" ")));
+            }
+            t
+        }
+    };
+    format!("(case {id} (kind {}) {sys_txt} (roots{roots_txt}) (trials {}) (panicloc {}))", quote(&kind), trials_txt.trim_start(), quote(&panic_loc))
 }
